@@ -988,7 +988,9 @@ func genToken(r *rng, pr *Profile, qtype uint16) *plan.TokenSpec {
 		a.PadTo = []int{400, 500, 520, 700, 1100, 1300, 2000, 4200, 9000, 30000, 66000}[r.intn(11)]
 	}
 	if a.Shape == "late" {
-		a.PadTo = []int{17000, 20000, 40000}[r.intn(3)]
+		// (below 16384 the late names are still compression targets: pointers
+		// with every offset bit in use)
+		a.PadTo = []int{17000, 20000, 40000, 8300, 9000, 12500, 16000}[r.intn(7)]
 	}
 	if a.Shape == "tight" {
 		a.PadTo = []int{520, 560, 700, 1000, 1300, 1500, 2500, 4300}[r.intn(8)]
